@@ -23,7 +23,9 @@ import vp, render_check
 # All template text below is free of the four characters; every value carries all of them.
 SP = "<'\">"
 TAINTED = [("string", SP), ("bytes", {"$bytes": list(SP.encode())}), ("array", [SP, [SP]]), ("map", {SP: SP, "k": SP, "n": {"x": SP}}),
-           ("mixed", [{"k": SP}, {"$bytes": list(SP.encode())}, 1]), ("int", 7), ("none", None)]
+           ("mixed", [{"k": SP}, {"$bytes": list(SP.encode())}, 1]), ("int", 7), ("none", None),
+           # each special character as the ONLY one in the value
+           ("only-apostrophe", "it's"), ("only-quote", 'say "x"'), ("only-lt", "a<b"), ("only-gt", "a>b"), ("apostrophe-in-array", ["it's"]), ("apostrophe-in-map", {"k": "it's", "it's": 1})]
 ROUTES = [
     "{{ v }}", "{% set x = v %}{{ x }}", "{% set x %}{{ v }}{% endset %}{{ x }}", "{% set_global x = v %}{{ x }}",
     "{% filter upper %}{{ v }}{% endfilter %}", "{% filter trim %}a{{ v }}{% endfilter %}",
@@ -51,6 +53,7 @@ ROUTES = [
 LIB = [["inc", "I{{ v }}"], ["incx", "I{{ x }}"],
        ["comps", "{% component c(p) %}C{{ p }}{% if body is defined %}{{ body }}{% endif %}{% endcomponent c %}"
                  "{% component outer(p) %}O{{<c p={p} />}}{% <c p={p}> %}{{ p }}{% if body is defined %}{{ body }}{% endif %}{% </c> %}{% endcomponent outer %}"],
+       ["compinc", "{% component ci(p) %}{% set v = p %}K{% include 'inc' %}{{<c p={p} />}}{% endcomponent ci %}"],
        ["base", "B{% block a %}P{{ v }}{% endblock %}{% block b %}{% endblock %}"],
        ["child", "{% extends 'base' %}{% block a %}K{{ super() }}{{ v }}{% endblock %}{% block b %}{% filter upper %}{% block n %}N{{ v }}{% endblock %}{% endfilter %}{% endblock %}"]]
 ENTITIES = ("&lt;", "&gt;", "&quot;", "&#39;", "&#x27;", "&amp;")
@@ -97,7 +100,8 @@ def sweep(C, tier):
                          {"op": "render_component", "name": "c", "auto": flag, "expect_ae": flag},
                          {"op": "render_component", "name": "c", "auto": flag, "body": "b", "expect_ae": flag},
                          {"op": "render_component", "name": "outer", "auto": flag, "expect_ae": flag},
-                         {"op": "render_component", "name": "outer", "auto": flag, "body": "b", "expect_ae": flag}]
+                         {"op": "render_component", "name": "outer", "auto": flag, "body": "b", "expect_ae": flag},
+                         {"op": "render_component", "name": "ci", "auto": flag, "expect_ae": flag}]
                 jobs.append({"cfg": {"autoescape": [".html"]}, "ctx": {"p": val}, "steps": steps})
                 meta.append(("api", kind, "suffix%s flag=%s" % (sfx, flag), None))
     # configuration path: a custom escape function that was set and then reset leaves the default escaper in charge
@@ -179,8 +183,11 @@ def run(tier):
     C = vp.Check("C01", tier, "model_checking")
     C.cov["rule"] = ("every complete program of <= MaxTok tokens over the escape alphabet x {autoescape on, off, on with a bound x}; "
                      "non-trivial = distinct (program, environment) with a specified reference result")
-    n = render_check.run_theme(C, "escape", 3 if tier == "quick" else 4, traced=True, also_str=True)
+    n = render_check.run_theme(C, "escape", 3, traced=True, also_str=True)
     if tier == "thorough":
+        # one token more, exact text only (the traces of 4-token programs over a 26-character string do not fit in memory;
+        # their constructs are the ones validated at 3 tokens and in the simulation below)
+        n += render_check.run_theme(C, "escape", 4, traced=False, also_str=True, tag="render-escape-4-text")
         n += render_check.run_theme(C, "escape", 8, traced=True, simulate=4000, depth=12, workers=1, tag="render-sim-escape", also_str=True)
     C.cov["sweep_renders"] = sweep(C, tier)
     suffixes(C)
